@@ -14,6 +14,7 @@ import (
 	"sort"
 	"strings"
 	"sync"
+	"sync/atomic"
 	"time"
 
 	"github.com/ddddddO/gtree"
@@ -785,6 +786,36 @@ func (r *cancelReader) Read(p []byte) (int, error) {
 
 func errEOF() error { return io.EOF }
 
+// streamReader delivers a first root and then child rows of that same block, one row per Read and slowly,
+// for `lasts`; it cancels the context after `at` rows. A splitter that only looks at the context when it
+// has a block to send would go on reading this input long after the call has returned.
+type streamReader struct {
+	head   []byte
+	at     int
+	rows   int
+	cancel context.CancelFunc
+	end    time.Time
+	reads  atomic.Int64
+}
+
+func (r *streamReader) Read(p []byte) (int, error) {
+	r.reads.Add(1)
+	if len(r.head) > 0 {
+		k := copy(p, r.head)
+		r.head = r.head[k:]
+		return k, nil
+	}
+	if time.Now().After(r.end) {
+		return 0, io.EOF
+	}
+	time.Sleep(200 * time.Microsecond)
+	r.rows++
+	if r.rows == r.at && r.cancel != nil {
+		r.cancel()
+	}
+	return copy(p, "  - c\n"), nil
+}
+
 func runFault(c faultCase) []Diff {
 	massiveMu.Lock()
 	defer massiveMu.Unlock()
@@ -823,6 +854,8 @@ func runFault(c faultCase) []Diff {
 		reader = &cancelReader{data: doc, at: c.At, cancel: cancel}
 	case "cancel-timer":
 		go func() { time.Sleep(time.Duration(c.At) * 20 * time.Microsecond); cancel() }()
+	case "cancel-stream":
+		reader = &streamReader{head: doc, at: c.At, cancel: cancel, end: time.Now().Add(4 * time.Second)}
 	}
 	type ret struct{ err error }
 	ch := make(chan ret, 1)
@@ -900,6 +933,17 @@ func runFault(c faultCase) []Diff {
 		if err == nil && c.Fault == "cancel-after-bytes" && c.At < len(doc) {
 			d = append(d, Diff{What: "context cancelled before the input was consumed, but the call returned nil", Real: "nil", Model: "ctx"})
 		}
+	case "cancel-stream":
+		if cls != "ctx" {
+			d = append(d, Diff{What: "context cancelled while the input was still streaming: the context's error must be returned", Real: cls, Model: "ctx"})
+		}
+		sr := reader.(*streamReader)
+		r0 := sr.reads.Load()
+		if leak := settle(before + 0); leak == "" {
+			if r1 := sr.reads.Load(); r1 > r0+2 {
+				d = append(d, Diff{What: "the caller's reader is still being read after the cancelled call returned", Real: fmt.Sprintf("%d reads after the return", r1-r0), Model: "none"})
+			}
+		}
 	case "reader":
 		if err == nil {
 			d = append(d, Diff{What: "reader failed but the call returned nil", Real: "nil", Model: "non-nil"})
@@ -967,6 +1011,12 @@ func runC11(ctx *Ctx) *Report {
 				}
 				cases = append(cases, faultCase{Kind: "massive-fault", Op: op, Doc: hx(doc), Text: fmt.Sprintf("%d blocks, %d failing", nb, nfail), Sched: ctx.Seed*100000 + int64(k), Fault: "none", Procs: []int{0, 1, 2, 4, 16}[k%5]})
 			}
+		}
+	}
+	// cancellation in the middle of one long, slowly streaming block
+	for k, op := range []string{"text", "walk", "json", "mkdir"} {
+		if k < 3 || ctx.Thorough {
+			cases = append(cases, faultCase{Kind: "massive-fault", Op: op, Doc: hxs("- r0\n  - a\n"), Text: "1 streaming block", Sched: int64(k), Fault: "cancel-stream", At: []int{1, 7, 60, 300}[k]})
 		}
 	}
 	// reader / writer / callback failure at every index, cancellation at every input offset of a small document
